@@ -68,7 +68,7 @@ def mk_case(cid, kinds, seps, suppress, rng, origin="tlc"):
     return {"id": cid, "kind": "c06", "origin": origin,
             "abs": {"kinds": list(kinds), "seps": list(seps), "suppress": bool(suppress)},
             "args": {"text": text, "elements": els, "suppress": bool(suppress), "acres": acres,
-                     "seq": rng.choice([False, False, False, True, "bulk", "thrice"]),
+                     "seq": rng.choice([False, False, False, True, "bulk", "thrice", "plss_steps"]),
                      # depth settings (the same for the whole and its parts); None: the defaults
                      "cfgx": rng.choice([None, None, None, "qq_depth.1", "qq_depth.3", "qq_depth_min.1,qq_depth_max.2",
                                          "break_halves", "qq_depth_min.3,break_halves"])}}
